@@ -9,6 +9,8 @@ Check(e) ==
   /\ Report(e.canon_out # "ok" \/ e.compose_in_set, <<"BAD", "composed-spelling-parses-differently", l>>)
   /\ Report(e.canon_out # "ok" \/ e.out = "ok", <<"BAD", "respelling-rejected", l>>)
   /\ Report(e.canon_out # "ok" \/ e.out # "ok" \/ e.same, <<"BAD", "respelling-parses-differently", l>>)
+  \* a header block: every field comes back under its own name, whether the library knows that name or only a longer one
+  /\ Report(e.out # "ok" \/ e.names_same, <<"BAD", "field-comes-back-under-another-name", l>>)
 Init == l = 1
 Next == l <= Len(T) /\ Check(T[l]) /\ l' = l + 1
 Spec == Init /\ [][Next]_l
